@@ -53,6 +53,8 @@ type walCfg struct {
 	// Facade: the log is driven through wal.NewWriteAheadLog with the default writer and reader factories of
 	// NewWriteAheadLogOptions (Comp and WBuf are then the library's defaults)
 	Facade bool `json:"facade,omitempty"`
+	// Direct: the log files are written through the block-aligned direct-I/O writer (buffer WBuf, a multiple of 4096)
+	Direct bool `json:"direct,omitempty"`
 }
 
 func (c walCfg) options(dir string) (*wal.Options, error) {
@@ -61,6 +63,9 @@ func (c walCfg) options(dir string) (*wal.Options, error) {
 	}
 	return wal.NewWriteAheadLogOptions(wal.BasePath(dir), wal.MaximumWalFileSizeBytes(c.MaxSize),
 		wal.WriterFactory(func(path string) (recordio.WriterI, error) {
+			if c.Direct {
+				return recordio.NewFileWriter(recordio.Path(path), recordio.CompressionType(c.Comp), recordio.BufferSizeBytes(c.WBuf), recordio.DirectIO())
+			}
 			return recordio.NewFileWriter(recordio.Path(path), recordio.CompressionType(c.Comp), recordio.BufferSizeBytes(c.WBuf))
 		}),
 		wal.ReaderFactory(func(path string) (recordio.ReaderI, error) { return recordio.NewFileReaderWithPath(path) }))
@@ -86,6 +91,7 @@ type c07Case struct {
 	Images   []imgObs `json:"images,omitempty"`
 	Unsynced []int    `json:"unsynced,omitempty"` // AppendSync ops that returned while written bytes were not fsynced
 	NEvents  int      `json:"n_events,omitempty"`
+	PadBad   string   `json:"pad_bad,omitempty"` // zero padding behind the files changed what is replayed
 	CutBad   string   `json:"cut_bad,omitempty"` // first byte-level cut of the newest file whose replay is not a prefix / fails
 	NCuts    int      `json:"n_cuts,omitempty"`
 	Fatal    string   `json:"fatal,omitempty"`
@@ -251,6 +257,37 @@ func (c *c07Case) Exec() {
 	}
 	if c.Cuts && err == nil {
 		c.cutNewest(dir, wd, recs)
+	}
+	if err == nil && len(c.Files) >= 1 && !c.Crash {
+		// block-aligned (direct I/O) writers pad every file with zeros up to a multiple of their buffer: a log whose
+		// files end in 1, 2, 3 or 17 zero bytes replays to the same records
+		c.PadBad = ""
+		pd := filepath.Join(dir, "pad")
+		for _, n := range []int{1, 2, 3, 17} {
+			os.RemoveAll(pd)
+			must(copyTree(wd, pd))
+			ents, _ := os.ReadDir(pd)
+			for _, e := range ents {
+				f, err := os.OpenFile(filepath.Join(pd, e.Name()), os.O_APPEND|os.O_WRONLY, 0644)
+				must(err)
+				f.Write(make([]byte, n))
+				f.Close()
+			}
+			got, err := replayDir(c.Cfg, pd)
+			if err != nil {
+				c.PadBad = fmt.Sprintf("every log file padded with %d zero bytes: replay failed: %s", n, classifyErr(err))
+				break
+			}
+			if len(got) != len(recs) {
+				c.PadBad = fmt.Sprintf("every log file padded with %d zero bytes: %d records replayed, %d without the padding", n, len(got), len(recs))
+				break
+			}
+			for i := range got {
+				if !bytes.Equal(got[i], recs[i]) {
+					c.PadBad = fmt.Sprintf("every log file padded with %d zero bytes: replayed record %d differs", n, i)
+				}
+			}
+		}
 	}
 	if !c.Crash {
 		return
@@ -434,6 +471,9 @@ func (c *c07Case) Oracle() (bool, string) {
 	if c.CutBad != "" {
 		return false, c.CutBad
 	}
+	if c.PadBad != "" {
+		return false, c.PadBad
+	}
 	for i, o := range c.Ops {
 		if o.Err != "" {
 			return false, fmt.Sprintf("op %d (%s) failed: %s", i, o.Op, o.Err)
@@ -486,8 +526,8 @@ func (c *c07Case) Oracle() (bool, string) {
 }
 
 func (c *c07Case) Sx() string {
-	if c.Fatal != "" || c.Cfg.Comp != 0 {
-		return ""
+	if c.Fatal != "" || c.Cfg.Comp != 0 || c.Cfg.Direct {
+		return "" // (direct-I/O files end in zero padding that the file model does not contain: oracle only)
 	}
 	for _, o := range c.Ops {
 		if o.GenN > 0 {
@@ -554,6 +594,9 @@ func (c *c07Case) Kind() string {
 	if c.Cfg.Facade {
 		k = "facade-defaults"
 	}
+	if c.Cfg.Direct {
+		k += "/direct"
+	}
 	if c.Crash {
 		k += "/crash"
 	}
@@ -614,6 +657,22 @@ func genC07(r *rand.Rand, tier string) []Case {
 				walOp{Op: "append", Rec: bytes.Repeat([]byte{0xb0 + byte(i)}, wb/2+5)}, walOp{Op: "append", Rec: bytes.Repeat([]byte{0xd0 + byte(i)}, wb+3)})
 		}
 		cases = append(cases, c)
+	}
+	// logs written through the direct-I/O writer: several buffers per file (the buffer is reused after each aligned
+	// flush), records of up to half a buffer, rotations by size and forced
+	if dioAvailable {
+		for i := 0; i < 3; i++ {
+			c := &c07Case{Cfg: walCfg{MaxSize: []uint64{30000, 9000, 1 << 20}[i], Comp: []int{0, 2, 0}[i], WBuf: []int{4096, 4096, 8192}[i], Direct: true}}
+			for j := 0; j < 30+r.Intn(30); j++ {
+				rec := make([]byte, 1+r.Intn(1800))
+				r.Read(rec)
+				c.Ops = append(c.Ops, walOp{Op: "append", Rec: rec})
+				if r.Intn(15) == 0 {
+					c.Ops = append(c.Ops, walOp{Op: "rotate"})
+				}
+			}
+			cases = append(cases, c)
+		}
 	}
 	// records around the size classes of the readers' buffer pool and beyond the default write buffer
 	for i := 0; i < 2; i++ {
